@@ -278,7 +278,7 @@ _ENV = None
 def _env(ctx):
     global _ENV
     if _ENV is None:
-        _ENV = Env(ctx, max(1, min(8, ctx.workers // 2)))
+        _ENV = Env(ctx, max(1, min(6, ctx.workers // 2)))
     return _ENV
 
 
